@@ -223,8 +223,12 @@ func runC16History(c *Ctx, hi int) {
 		}
 	}
 	auths := []gmtls.ClientAuthType{gmtls.NoClientCert, gmtls.RequestClientCert, gmtls.RequireAnyClientCert, gmtls.RequireAndVerifyClientCert, gmtls.VerifyClientCertIfGiven}
-	needsCert := func(a gmtls.ClientAuthType) bool { return a == gmtls.RequireAnyClientCert || a == gmtls.RequireAndVerifyClientCert }
-	verifiesCert := func(a gmtls.ClientAuthType) bool { return a == gmtls.VerifyClientCertIfGiven || a == gmtls.RequireAndVerifyClientCert }
+	needsCert := func(a gmtls.ClientAuthType) bool {
+		return a == gmtls.RequireAnyClientCert || a == gmtls.RequireAndVerifyClientCert
+	}
+	verifiesCert := func(a gmtls.ClientAuthType) bool {
+		return a == gmtls.VerifyClientCertIfGiven || a == gmtls.RequireAndVerifyClientCert
+	}
 	withClientCert := r.Intn(2) == 0
 	// in some GMSSL histories the client's certificate is not one the server trusts (issued by a CA of the same name with
 	// another key): fine under the policies that do not verify, fatal under those that do — on a resumed session too
